@@ -719,6 +719,8 @@ pub fn all_mutators() -> Vec<(&'static str, Mutator)> {
         ("slot_edge", slot_edge), ("env_netid", env_netid), ("env_magic", env_magic), ("env_acnt", env_acnt), ("pp_edge", pp_edge),
         ("b_ins_empty", b_ins_empty), ("b_outs_empty", b_outs_empty), ("b_out_amount", b_out_amount), ("b_out_add", b_out_add),
         ("b_utxo_amount", b_utxo_amount), ("b_utxo_remove", b_utxo_remove), ("b_in_add", b_in_add), ("b_utxo_addr", b_utxo_addr),
-        ("asset_pair_overflow", asset_pair_overflow), ("sh_counts", sh_counts), ("b_wit_len_consistent", b_wit_len_consistent), ("b_wit_len", b_wit_len), ("b_wit_flip", b_wit_flip), ("b_wit_remove", b_wit_remove), ("b_wit_swap_kind", b_wit_swap_kind),
+        ("asset_pair_overflow", asset_pair_overflow), ("cert_inject", super::vcert::cert_inject), ("cert_inject", super::vcert::cert_inject),
+        ("cert_two_registrations", super::vcert::cert_two_registrations), ("cstate_edit", super::vcert::cstate_edit), ("cstate_edit", super::vcert::cstate_edit),
+        ("acnt_edge", super::vcert::acnt_edge), ("cert_pp_edge", super::vcert::cert_pp_edge), ("cert_slot_edge", super::vcert::cert_slot_edge), ("cert_retire_edge", super::vcert::cert_retire_edge), ("cert_gendeleg_edge", super::vcert::cert_gendeleg_edge), ("sh_counts", sh_counts), ("b_wit_len_consistent", b_wit_len_consistent), ("b_wit_len", b_wit_len), ("b_wit_flip", b_wit_flip), ("b_wit_remove", b_wit_remove), ("b_wit_swap_kind", b_wit_swap_kind),
     ]
 }
